@@ -229,6 +229,43 @@ pub fn touch_packet(p: &Packet, n: usize) -> Result<(), String> {
 }
 
 /// C01 on one byte string: every entry point returns, every accessor returns, iterators finish.
+/// calls every parse entry point once (no accessor): used to tell a panic *in parsing* (C01 only) from a panic in an
+/// accessor of an accepted value
+pub fn parse_entry_points(b: &[u8]) {
+    let _ = App::parse(b).is_ok();
+    let _ = Bye::parse(b).is_ok();
+    let _ = Sdes::parse(b).is_ok();
+    let _ = SenderReport::parse(b).is_ok();
+    let _ = ReceiverReport::parse(b).is_ok();
+    if let Ok(p) = TransportFeedback::parse(b) {
+        let _ = p.parse_fci::<Nack>().is_ok();
+        let _ = p.parse_fci::<Fir>().is_ok();
+        let _ = p.parse_fci::<Sli>().is_ok();
+        let _ = p.parse_fci::<Rpsi>().is_ok();
+        let _ = p.parse_fci::<Pli>().is_ok();
+    }
+    if let Ok(p) = PayloadFeedback::parse(b) {
+        let _ = p.parse_fci::<Nack>().is_ok();
+        let _ = p.parse_fci::<Fir>().is_ok();
+        let _ = p.parse_fci::<Sli>().is_ok();
+        let _ = p.parse_fci::<Rpsi>().is_ok();
+        let _ = p.parse_fci::<Pli>().is_ok();
+    }
+    let _ = Unknown::parse(b).is_ok();
+    let _ = Packet::parse(b).is_ok();
+    let _ = ReportBlock::parse(b).is_ok();
+    if let Ok(c) = Compound::parse(b) {
+        // the iterator parses each tile; bounded by the number of tiles
+        let mut n = 0usize;
+        for _ in c {
+            n += 1;
+            if n > b.len() {
+                break;
+            }
+        }
+    }
+}
+
 pub fn touch_all(b: &[u8]) -> Result<(), String> {
     let n = b.len();
     guard("App", || match App::parse(b) {
